@@ -382,8 +382,47 @@ let sim_main () =
     end
   done with End_of_file -> ())
 
+(* ------------------------------------------------------------------ C13: local mode *)
+let local_main () =
+  let app = ref (lapp_init true) in
+  let emits = ref [] in
+  let lmode_of = function "b" -> LBroadcast | "xs" -> LExceptServer | "ds" -> LDirectServer | "xr" -> LExceptRemote | _ -> LDirectRemote in
+  (try while true do
+    let line = String.trim (input_line stdin) in
+    if line = "" || line.[0] = '#' then () else begin
+      let t = List.filter (fun s -> s <> "") (String.split_on_char ' ' line) in
+      (match t with
+       | ["cfg"; p] -> app := lapp_init (p <> "plugins=noclient"); emits := []; print_endline "scenario"
+       | ["server"; x] -> app := fst (lstep_run !app (LServer (x = "start")))
+       | ["client"; x] -> app := fst (lstep_run !app (LClient (match x with "connected" -> LConnected | "connecting" -> LConnecting | _ -> LDisconnected)))
+       | ["remote"; x] -> app := fst (lstep_run !app (LRemote (x = "connect")))
+       | ["emit"; "ce"; s] -> emits := EmitCE (n_of_dec s) :: !emits
+       | ["emit"; "ct"; s] -> emits := EmitCT (n_of_dec s) :: !emits
+       | ["emit"; "se"; m; s] -> if (m = "xr" || m = "dr") && not !app.la_remote then () else emits := EmitSE (lmode_of m, n_of_dec s) :: !emits
+       | ["emit"; "st"; m; s] -> if (m = "xr" || m = "dr") && not !app.la_remote then () else emits := EmitST (lmode_of m, n_of_dec s) :: !emits
+       | "frame" :: rest ->
+         (* the number of fixed updates of the frame is an oracle annotation: frame <dt> fixed=<n> *)
+         let fixed = List.exists (fun s -> String.length s > 6 && String.sub s 0 6 = "fixed=" && s <> "fixed=0") rest in
+         let (a', obs) = lstep_run !app (LFrame (fixed, List.rev !emits)) in
+         app := a'; emits := [];
+         let str = function
+           | ObsFromCE s -> "from CE0:" ^ dec s ^ "@S" | ObsFromCT s -> "from CT:" ^ dec s ^ "@S"
+           | ObsGotSE s -> "got SE0:" ^ dec s | ObsGotST s -> "got ST:" ^ dec s
+           | NetC2S_CE s -> "net-c2s CE0:" ^ dec s | NetC2S_CT s -> "net-c2s CT:" ^ dec s
+           | NetS2C_SE s -> "net-s2c SE0:" ^ dec s | NetS2C_ST s -> "net-s2c ST:" ^ dec s in
+         let is_net o = match o with NetC2S_CE _ | NetC2S_CT _ | NetS2C_SE _ | NetS2C_ST _ -> true | _ -> false in
+         let is_c2s o = match o with NetC2S_CE _ | NetC2S_CT _ -> true | _ -> false in
+         List.iter print_endline (List.sort compare (List.map str (List.filter (fun o -> not (is_net o)) obs)));
+         List.iter print_endline (List.sort compare (List.map str (List.filter is_c2s obs)));
+         List.iter print_endline (List.sort compare (List.map str (List.filter (fun o -> is_net o && not (is_c2s o)) obs)))
+       | _ -> print_endline "unknown-step");
+      print_endline "."
+    end
+  done with End_of_file -> ())
+
 let () =
   if Array.length Sys.argv > 1 && Sys.argv.(1) = "sim" then sim_main () else
+  if Array.length Sys.argv > 1 && Sys.argv.(1) = "local" then local_main () else
   try while true do
     let line = input_line stdin in
     let toks = List.filter (fun s -> s <> "") (String.split_on_char ' ' line) in
